@@ -161,6 +161,39 @@ def periodic_roots(seed=0):
     return out
 
 
+def init_roots(seed=0):
+    """Meshes made by the library's own named constructors (init_*), default constructors and refdom: name -> St."""
+    import skfem
+    x = np.array([0., .5, 1.25])
+    y = np.array([0., 1., 1.5 + (seed % 2) * .25])
+    z = np.array([0., .75])
+    out = collections.OrderedDict()
+
+    def add(name, f):
+        m = f()
+        out[name] = from_mesh(m, hist=(name,))
+    add('I:MeshLine.init_tensor', lambda: skfem.MeshLine.init_tensor(np.array([0., .5, 2., 1.25])))
+    add('I:MeshTri()', lambda: skfem.MeshTri())
+    add('I:MeshTri.init_tensor', lambda: skfem.MeshTri.init_tensor(x, y))
+    add('I:MeshTri.init_symmetric', lambda: skfem.MeshTri.init_symmetric())
+    add('I:MeshTri.init_sqsymmetric', lambda: skfem.MeshTri.init_sqsymmetric())
+    add('I:MeshTri.init_lshaped', lambda: skfem.MeshTri.init_lshaped())
+    add('I:MeshTri.init_circle(1)', lambda: skfem.MeshTri.init_circle(1))
+    add('I:MeshTri.init_refdom', lambda: skfem.MeshTri.init_refdom())
+    add('I:MeshQuad()', lambda: skfem.MeshQuad())
+    add('I:MeshQuad.init_tensor', lambda: skfem.MeshQuad.init_tensor(x, y))
+    add('I:MeshQuad.init_refdom', lambda: skfem.MeshQuad.init_refdom())
+    add('I:MeshTet()', lambda: skfem.MeshTet())
+    add('I:MeshTet.init_tensor', lambda: skfem.MeshTet.init_tensor(x, y, z))
+    add('I:MeshTet.init_ball(1)', lambda: skfem.MeshTet.init_ball(1))
+    add('I:MeshTet.init_refdom', lambda: skfem.MeshTet.init_refdom())
+    add('I:MeshHex()', lambda: skfem.MeshHex())
+    add('I:MeshHex.init_tensor', lambda: skfem.MeshHex.init_tensor(x, y, z))
+    add('I:MeshWedge1()', lambda: skfem.MeshWedge1())
+    add('I:MeshWedge1.init_refdom', lambda: skfem.MeshWedge1.init_refdom())
+    return out
+
+
 def seeds(seed=0, kinds=None):
     """Ordered dict name -> St.  Simplest first within each kind."""
     out = collections.OrderedDict()
